@@ -28,7 +28,30 @@ TRUSTED = [
     "interfaces of all vms are created before the first is attached in the model (integrate_node creates them per "
     "vm); unobservable because unattached interfaces are never read",
     "after a reattach that raised, the case ends (the real objects are left half-updated; not modelled)",
+    "translator tie (lean/I2N/Extracted/GenNet.lean): harness/pygen.py, the cuts and the atom table of "
+    "harness/pygen_pxnet.py (addresses / dotted strings / int(address) are one number; ipaddress.IPv4Address(<int>) is the "
+    "range check `ipv4`; network_address / `in network` are the hand model's networkIp / inNet; bin().zfill(), "
+    "rstrip('0'), split('.') are the list functions printed in the prelude of the generated file)",
 ]
+
+
+def extract(ctx):
+    """second tie: the decision logic of avocado_i2n/vmnet/netconfig.py (get_allocatable_address, has_interface,
+    can_add_interface, add_interface, translate_address, the getter of mask_bit, validate) and of
+    VMNetwork.reattach_interface translated to Lean from the CURRENT source by harness/pygen_pxnet.py (raises
+    pygen.Unsupported when a function left the translated subset / a pinned statement changed; run.py records that as
+    a proof problem and searches for a failing input)"""
+    import pygen_pxnet
+    if pygen_pxnet.extract_net(ctx):
+        ctx.notes.append("I2N/Extracted/GenNet.lean changed: the source of avocado_i2n/vmnet/netconfig.py / network.py "
+                         "differs from the one the committed file was generated from (allocate_matches_source, "
+                         "hasInterface_matches_source, canAdd_matches_source, addInterface_matches_source, "
+                         "translate_matches_source, maskBit_matches_source, validate_matches_source, "
+                         "reattach_matches_source are re-checked)")
+    ctx.extra["regenerated"] = ("lean/I2N/Extracted/GenNet.lean (VMNetconfig.get_allocatable_address, has_interface, "
+                                "can_add_interface, add_interface, translate_address, mask_bit getter, validate; "
+                                "VMNetwork.reattach_interface via harness/pygen_pxnet.py + harness/pygen.py)")
+
 
 MAXV = 3   # violations recorded per key (every occurrence is counted in the distribution)
 
